@@ -108,6 +108,30 @@ class Universe:
             self.keyfn, self.targs = attr_n, (AObj, str)
             self.wrong = [("wrong_item", AObj(5, 0))]
             self.hashable = True
+        elif name == "eqrepr":
+            # 1, True and 1.0 are equal (and hash-equal) Python objects with three different keys under key=repr:
+            # anything that remembers per-object answers confuses them
+            self.keys = ["1", "True", "1.0"]
+            self.specs = [(x, None) for x in self.keys]
+            self.keyfn, self.targs = repr, (object, str)
+            self.wrong = []
+            self.hashable = False  # (a built-in set operand would merge the three items before the container sees them)
+        elif name == "eqtuple":
+            # per key two EQUAL but distinguishable items ('a', 1) == ('a', 1.0): "the most recently added item"
+            self.specs = [(x, p) for x in self.keys for p in (1, 1.0)]
+            self.keyfn, self.targs = first, (tuple, str)
+            self.wrong = [("wrong_item", ["q", 0])]
+            self.hashable = False  # (same reason)
+        elif name == "tlist":
+            # KeyedSet[List[int], int]: whether an item conforms depends on its CONTENTS, not on its class
+            self.keys = [1, 2, 3][:k]
+            self.missing_key = 99
+            self.specs = [(x, p) for x in self.keys for p in (0, 1)]
+            from typing import List
+
+            self.keyfn, self.targs = first, (List[int], int)
+            self.wrong = [("wrong_item", [2, "y"]), ("wrong_item_new_key", [7, "y"])]
+            self.hashable = False
         elif name == "ulist":
             self.specs = [(x, p) for x in self.keys for p in (0, 1)]
             self.keyfn, self.targs = first, (list, str)
@@ -127,8 +151,10 @@ class Universe:
                 pool[s] = AObj(s[0], s[1])
             elif self.name == "spec":
                 pool[s] = _spec_classes()["SItem"](key=s[0], value=s[1])
-            elif self.name == "ulist":
+            elif self.name in ("ulist", "tlist"):
                 pool[s] = [s[0], s[1]]
+            elif self.name == "eqrepr":
+                pool[s] = {"1": 1, "True": True, "1.0": 1.0}[s[0]]
             else:
                 pool[s] = (s[0], s[1])
         return pool
@@ -148,6 +174,8 @@ class Universe:
             return "k%d" % (obj % 2)
         if self.name == "attr":
             return obj.n
+        if self.name == "eqrepr":
+            return repr(obj)
         if self.name == "spec":
             return obj.key
         return obj[0]
@@ -162,6 +190,8 @@ class Universe:
 
     def conforms(self, obj):
         it, kt = self.targs
+        if self.name == "tlist":
+            return isinstance(obj, list) and all(type(x) is int for x in obj) and bool(obj) and isinstance(obj[0], int)
         try:
             return isinstance(obj, it) and isinstance(self.key_of(obj), kt)
         except Exception:
@@ -176,11 +206,11 @@ class Canon:
     def item(self, o):
         s = self.ids.get(id(o))
         if s is not None:
-            return ["item", list(s)]
+            return ["item", list(s), type(s[1]).__name__]  # (the type name keeps ('a', 1) and ('a', 1.0) apart: the lists are equal)
         for sp, po in self.pool.items():
             try:
-                if type(po) is type(o) and po == o:
-                    return ["item", list(sp)]
+                if type(po) is type(o) and po == o and [type(x) for x in (po if isinstance(po, (list, tuple)) else [po])] == [type(x) for x in (o if isinstance(o, (list, tuple)) else [o])]:
+                    return ["item", list(sp), type(sp[1]).__name__]
             except Exception:
                 pass
         return ["obj", repr(o)[:80]]
@@ -742,7 +772,8 @@ def explore(shard):
     return C.rec
 
 
-UNIVERSES = ["self", "tuple", "spec", "ulist", "mod2", "selfmismatch", "attr"]
+UNIVERSES = ["self", "tuple", "spec", "ulist", "mod2", "selfmismatch", "attr", "eqrepr", "eqtuple", "tlist"]
+ONLY = {"eqrepr": {"typed": (False,)}, "tlist": {"typed": (True,)}}
 
 
 def main(run):
@@ -750,7 +781,7 @@ def main(run):
     shards = [
         {"universe": un, "typed": t, "enforce": e, "k": k}
         for un in UNIVERSES
-        for t in (False, True)
+        for t in ONLY.get(un, {}).get("typed", (False, True))
         for e in (False, True)
     ]
     for rec in pmap(explore, shards):
